@@ -177,3 +177,6 @@ def check(ctx):
     import_rules(ctx, "c01", {"lookup-by-full-key", "lookup-result"})
     # the image is a function of the update history only: read-only calls neither write nor change what a later flush does
     import_rules(ctx, "c15", {"read-only-no-dirty-store"})
+    # a freed slot is always filed on its list (never given back by shortening the file): what later calls read at that
+    # offset stays inside the file
+    import_rules(ctx, "c06", {"push-pop-inverse"})
